@@ -10,6 +10,7 @@ import (
 	"verifmc/vrt"
 )
 
+//go:norace
 func pt(p unsafe.Pointer, desc string) {
 	x := vrt.Cur()
 	if x == nil || x.Aborting() {
@@ -19,26 +20,31 @@ func pt(p unsafe.Pointer, desc string) {
 	x.Touch(x.CellFor(uintptr(p)), 0xa70)
 }
 
+//go:norace
 func AddUint32(p *uint32, d uint32) uint32 {
 	pt(unsafe.Pointer(p), "atomic.AddUint32")
 	return atomic.AddUint32(p, d)
 }
 
+//go:norace
 func LoadUint32(p *uint32) uint32 {
 	pt(unsafe.Pointer(p), "atomic.LoadUint32")
 	return atomic.LoadUint32(p)
 }
 
+//go:norace
 func StoreUint32(p *uint32, v uint32) {
 	pt(unsafe.Pointer(p), "atomic.StoreUint32")
 	atomic.StoreUint32(p, v)
 }
 
+//go:norace
 func SwapUint32(p *uint32, v uint32) uint32 {
 	pt(unsafe.Pointer(p), "atomic.SwapUint32")
 	return atomic.SwapUint32(p, v)
 }
 
+//go:norace
 func CompareAndSwapUint32(p *uint32, o, n uint32) bool {
 	pt(unsafe.Pointer(p), "atomic.CompareAndSwapUint32")
 	return atomic.CompareAndSwapUint32(p, o, n)
@@ -46,46 +52,55 @@ func CompareAndSwapUint32(p *uint32, o, n uint32) bool {
 
 type Uint32 struct{ v atomic.Uint32 }
 
+//go:norace
 func (i *Uint32) Add(d uint32) uint32 {
 	pt(unsafe.Pointer(i), "atomic.Uint32.Add")
 	return i.v.Add(d)
 }
 
+//go:norace
 func (i *Uint32) Load() uint32 {
 	pt(unsafe.Pointer(i), "atomic.Uint32.Load")
 	return i.v.Load()
 }
 
+//go:norace
 func (i *Uint32) Store(x uint32) {
 	pt(unsafe.Pointer(i), "atomic.Uint32.Store")
 	i.v.Store(x)
 }
 
+//go:norace
 func (i *Uint32) CompareAndSwap(o, n uint32) bool {
 	pt(unsafe.Pointer(i), "atomic.Uint32.CompareAndSwap")
 	return i.v.CompareAndSwap(o, n)
 }
 
+//go:norace
 func AddUint64(p *uint64, d uint64) uint64 {
 	pt(unsafe.Pointer(p), "atomic.AddUint64")
 	return atomic.AddUint64(p, d)
 }
 
+//go:norace
 func LoadUint64(p *uint64) uint64 {
 	pt(unsafe.Pointer(p), "atomic.LoadUint64")
 	return atomic.LoadUint64(p)
 }
 
+//go:norace
 func StoreUint64(p *uint64, v uint64) {
 	pt(unsafe.Pointer(p), "atomic.StoreUint64")
 	atomic.StoreUint64(p, v)
 }
 
+//go:norace
 func SwapUint64(p *uint64, v uint64) uint64 {
 	pt(unsafe.Pointer(p), "atomic.SwapUint64")
 	return atomic.SwapUint64(p, v)
 }
 
+//go:norace
 func CompareAndSwapUint64(p *uint64, o, n uint64) bool {
 	pt(unsafe.Pointer(p), "atomic.CompareAndSwapUint64")
 	return atomic.CompareAndSwapUint64(p, o, n)
@@ -93,46 +108,55 @@ func CompareAndSwapUint64(p *uint64, o, n uint64) bool {
 
 type Uint64 struct{ v atomic.Uint64 }
 
+//go:norace
 func (i *Uint64) Add(d uint64) uint64 {
 	pt(unsafe.Pointer(i), "atomic.Uint64.Add")
 	return i.v.Add(d)
 }
 
+//go:norace
 func (i *Uint64) Load() uint64 {
 	pt(unsafe.Pointer(i), "atomic.Uint64.Load")
 	return i.v.Load()
 }
 
+//go:norace
 func (i *Uint64) Store(x uint64) {
 	pt(unsafe.Pointer(i), "atomic.Uint64.Store")
 	i.v.Store(x)
 }
 
+//go:norace
 func (i *Uint64) CompareAndSwap(o, n uint64) bool {
 	pt(unsafe.Pointer(i), "atomic.Uint64.CompareAndSwap")
 	return i.v.CompareAndSwap(o, n)
 }
 
+//go:norace
 func AddInt32(p *int32, d int32) int32 {
 	pt(unsafe.Pointer(p), "atomic.AddInt32")
 	return atomic.AddInt32(p, d)
 }
 
+//go:norace
 func LoadInt32(p *int32) int32 {
 	pt(unsafe.Pointer(p), "atomic.LoadInt32")
 	return atomic.LoadInt32(p)
 }
 
+//go:norace
 func StoreInt32(p *int32, v int32) {
 	pt(unsafe.Pointer(p), "atomic.StoreInt32")
 	atomic.StoreInt32(p, v)
 }
 
+//go:norace
 func SwapInt32(p *int32, v int32) int32 {
 	pt(unsafe.Pointer(p), "atomic.SwapInt32")
 	return atomic.SwapInt32(p, v)
 }
 
+//go:norace
 func CompareAndSwapInt32(p *int32, o, n int32) bool {
 	pt(unsafe.Pointer(p), "atomic.CompareAndSwapInt32")
 	return atomic.CompareAndSwapInt32(p, o, n)
@@ -140,46 +164,55 @@ func CompareAndSwapInt32(p *int32, o, n int32) bool {
 
 type Int32 struct{ v atomic.Int32 }
 
+//go:norace
 func (i *Int32) Add(d int32) int32 {
 	pt(unsafe.Pointer(i), "atomic.Int32.Add")
 	return i.v.Add(d)
 }
 
+//go:norace
 func (i *Int32) Load() int32 {
 	pt(unsafe.Pointer(i), "atomic.Int32.Load")
 	return i.v.Load()
 }
 
+//go:norace
 func (i *Int32) Store(x int32) {
 	pt(unsafe.Pointer(i), "atomic.Int32.Store")
 	i.v.Store(x)
 }
 
+//go:norace
 func (i *Int32) CompareAndSwap(o, n int32) bool {
 	pt(unsafe.Pointer(i), "atomic.Int32.CompareAndSwap")
 	return i.v.CompareAndSwap(o, n)
 }
 
+//go:norace
 func AddInt64(p *int64, d int64) int64 {
 	pt(unsafe.Pointer(p), "atomic.AddInt64")
 	return atomic.AddInt64(p, d)
 }
 
+//go:norace
 func LoadInt64(p *int64) int64 {
 	pt(unsafe.Pointer(p), "atomic.LoadInt64")
 	return atomic.LoadInt64(p)
 }
 
+//go:norace
 func StoreInt64(p *int64, v int64) {
 	pt(unsafe.Pointer(p), "atomic.StoreInt64")
 	atomic.StoreInt64(p, v)
 }
 
+//go:norace
 func SwapInt64(p *int64, v int64) int64 {
 	pt(unsafe.Pointer(p), "atomic.SwapInt64")
 	return atomic.SwapInt64(p, v)
 }
 
+//go:norace
 func CompareAndSwapInt64(p *int64, o, n int64) bool {
 	pt(unsafe.Pointer(p), "atomic.CompareAndSwapInt64")
 	return atomic.CompareAndSwapInt64(p, o, n)
@@ -187,21 +220,25 @@ func CompareAndSwapInt64(p *int64, o, n int64) bool {
 
 type Int64 struct{ v atomic.Int64 }
 
+//go:norace
 func (i *Int64) Add(d int64) int64 {
 	pt(unsafe.Pointer(i), "atomic.Int64.Add")
 	return i.v.Add(d)
 }
 
+//go:norace
 func (i *Int64) Load() int64 {
 	pt(unsafe.Pointer(i), "atomic.Int64.Load")
 	return i.v.Load()
 }
 
+//go:norace
 func (i *Int64) Store(x int64) {
 	pt(unsafe.Pointer(i), "atomic.Int64.Store")
 	i.v.Store(x)
 }
 
+//go:norace
 func (i *Int64) CompareAndSwap(o, n int64) bool {
 	pt(unsafe.Pointer(i), "atomic.Int64.CompareAndSwap")
 	return i.v.CompareAndSwap(o, n)
@@ -209,11 +246,13 @@ func (i *Int64) CompareAndSwap(o, n int64) bool {
 
 type Bool struct{ v atomic.Bool }
 
+//go:norace
 func (b *Bool) Load() bool {
 	pt(unsafe.Pointer(b), "atomic.Bool.Load")
 	return b.v.Load()
 }
 
+//go:norace
 func (b *Bool) Store(x bool) {
 	pt(unsafe.Pointer(b), "atomic.Bool.Store")
 	b.v.Store(x)
